@@ -153,7 +153,19 @@ def _rw_values_count(text):
     return re.subn(r'iter\.values\(\)[^;{}]*?\.count\(\)', 'values_count(iter)', text, flags=re.S)
 
 
+def _rw_ids_values_for_each(text):
+    # RW22: `iter.ids_and_values()<chain>.for_each(<closure>);` -> `ids_values_for_each(iter);` (whole arm assumed, T6)
+    return re.subn(r'iter\s*\.ids_and_values\(\)[^;]*?\.for_each\([^;]*?\);', 'ids_values_for_each(iter);', text, flags=re.S)
+
+
+def _rw_values_map(text):
+    # RW23: `chunk.values.map(&map)` -> `mapped(chunk.values, map)` (std Map adaptor handed to the bag)
+    return re.subn(r'chunk\.values\.map\(&map\)', 'mapped(chunk.values, map)', text)
+
+
 REWRITES = {
+    'RW22': ('iter.ids_and_values()<chain>.for_each(..) -> ids_values_for_each(iter) (chunk-size-1 arm of map_col::task is one std adaptor chain: assumed, T6; covered by the bounded Kani harnesses)', _rw_ids_values_for_each),
+    'RW23': ('chunk.values.map(&map) -> mapped(chunk.values, map) (std Map adaptor)', _rw_values_map),
     'RW20': ('chunk<chain>.count() -> chunk_count(chunk) (assumption T6: the number of survivors of the chunk)', _rw_chunk_count),
     'RW21': ('iter.values()<chain>.count() -> values_count(iter) (chunk-size-1 arm of this kernel is a single std adaptor chain: assumed, T6)', _rw_values_count),
     'RW17': ('let x = chunk<chain>.reduce(reduce) -> let x = chunk_reduce(chunk) (assumption T6: Some iff the chunk has a survivor)', _rw_chunk_reduce),
